@@ -15,6 +15,12 @@
 
 namespace coloquinte {
 
+#ifdef COLOQUINTE_VERIF
+namespace verif {
+void (*onDetailedOp)(const char *kind, const int *args, int nbArgs) = nullptr;
+}  // namespace verif
+#endif
+
 void DetailedPlacer::legalize(
     Circuit &circuit, const ColoquinteParameters &params,
     const std::optional<PlacementCallback> &callback) {
@@ -113,6 +119,12 @@ void DetailedPlacer::callback() {
 
 void DetailedPlacer::doSwap(int c1, int c2) {
   assert(placement_.canSwap(c1, c2));
+#ifdef COLOQUINTE_VERIF
+  if (verif::onDetailedOp != nullptr) {
+    int verifArgs[2] = {c1, c2};
+    verif::onDetailedOp("h_swap", verifArgs, 2);
+  }
+#endif
   placement_.swap(c1, c2);
   updateCellPos(c1);
   updateCellPos(c2);
@@ -120,6 +132,12 @@ void DetailedPlacer::doSwap(int c1, int c2) {
 
 void DetailedPlacer::doInsert(int c, int row, int pred) {
   assert(placement_.canInsert(c, row, pred));
+#ifdef COLOQUINTE_VERIF
+  if (verif::onDetailedOp != nullptr) {
+    int verifArgs[3] = {c, row, pred};
+    verif::onDetailedOp("h_insert", verifArgs, 3);
+  }
+#endif
   placement_.insert(c, row, pred);
   updateCellPos(c);
 }
@@ -543,6 +561,16 @@ void DetailedPlacer::runShiftsOnCells(const std::vector<int> &cells) {
     placement_.cellX_[c] = pos;
     xtopo_.updateCellPos(c, pos);
   }
+#ifdef COLOQUINTE_VERIF
+  if (verif::onDetailedOp != nullptr) {
+    std::vector<int> verifArgs;
+    for (int c : cells) {
+      verifArgs.push_back(c);
+      verifArgs.push_back(placement_.cellX(c));
+    }
+    verif::onDetailedOp("h_shift", verifArgs.data(), (int)verifArgs.size());
+  }
+#endif
 }
 
 struct ReorderingRegion {
@@ -739,6 +767,26 @@ void RowReordering::runOrdering(int rowInd) {
 void RowReordering::writeback() {
   if (improvement_) {
     // Save the new placement
+#ifdef COLOQUINTE_VERIF
+    if (verif::onDetailedOp != nullptr) {
+      std::vector<int> verifArgs;
+      verifArgs.push_back((int)cells_.size());
+      for (int c : cells_) {
+        verifArgs.push_back(c);
+      }
+      verifArgs.push_back(nbRegions());
+      for (int i = 0; i < nbRegions(); ++i) {
+        verifArgs.push_back(regions_[i].row);
+        verifArgs.push_back(regions_[i].cellPred);
+        verifArgs.push_back((int)bestOrder_[i].size());
+        for (size_t j = 0; j < bestOrder_[i].size(); ++j) {
+          verifArgs.push_back(bestOrder_[i][j]);
+          verifArgs.push_back(bestPositions_[i][j]);
+        }
+      }
+      verif::onDetailedOp("h_reorder", verifArgs.data(), (int)verifArgs.size());
+    }
+#endif
     for (int c : cells_) {
       placement_.unplace(c);
     }
